@@ -277,6 +277,16 @@ func (w *weaver) file(f *ast.File) {
 					}
 				}
 			}
+			if se, ok := n.Fun.(*ast.SelectorExpr); ok && se.Sel.Name == "Client" {
+				if x, ok := se.X.(*ast.Ident); ok {
+					if pn, ok := w.info.Uses[x].(*types.PkgName); ok && pn.Imported().Path() == "crypto/tls" {
+						// see simrt.TLSClient: the lazy handshake is serialised by a simulated mutex
+						w.used = true
+						w.stats["tlsclient"]++
+						n.Fun = rt("TLSClient")
+					}
+				}
+			}
 			if fn, ok := n.Fun.(*ast.Ident); ok && fn.Name == "close" {
 				if _, ok := w.info.Uses[fn].(*types.Builtin); ok {
 					w.used = true
